@@ -1,0 +1,18 @@
+//go:build verif
+
+package transient
+
+// Contracts checked by /verif/govc (contract-based deductive verification).
+// Comment-only: with the `verif` tag off this file is not even parsed.
+
+// committing the transient store throws its contents away (a brand-new in-memory database) and
+// reports the ZERO commit id: nothing of it can reach a commit hash
+//@ func (*Store).Commit
+//@   props C06,C12
+//@   modifies *ts, newMemN, lastNewMem
+//@   ensures [zero-id] id.Version == 0 && id.Hash == nil
+//@   ensures [fresh-database] newMemN == old(newMemN) + 1 && ts.Store.DB == lastNewMem
+//@ func (*Store).LastCommitID
+//@   props C06
+//@   modifies nothing
+//@   ensures [zero-id] id.Version == 0 && id.Hash == nil
